@@ -180,7 +180,10 @@ def run_c19(ctx, spec, out):
             model_lines.append(q)
             cases[n] = {"text": text, "optimize": True, "dataset": {"world": wbs}, "has_header_row": queryfam.has_header_row(text), "dataset_hash": common.case_hash(wbs) + "i", "extra": {"instance": "importing"}}
             pairs.append((fid, n, exp_id))
+    fed_pairs, fed_worlds = federated_exports(ctx, rng, schema, impl_lines, n + 1, 4 if ctx["tier"] == "quick" else 40)
     impl, model = run_lines(ctx, impl_lines, model_lines)
+    judge_federated(v, impl, fed_pairs)
+    out.extra_cov["federated_export_worlds"] = fed_worlds
     bad_exports = set()
     for fid, iid, exp_id in pairs:
         r = impl.get(exp_id) or {}
@@ -201,6 +204,102 @@ def run_c19(ctx, spec, out):
             same += 1
     out.extra_cov["worlds"] = nworlds
     out.extra_cov["byte_identical_answers"] = same
+
+
+def federated_exports(ctx, rng, schema, impl_lines, n, nworlds):
+    """The exporter pointed at another lmd (federation): the inner daemon's backends appear as sub peers, in the state the
+    inner daemon reports for them - among them backends in warning state (one failed update, data kept), which a fresh
+    exporter never sees when it talks to the cores itself.  The statement is the property's own: the importing instance
+    answers every query like the instance that wrote the snapshot; both are implementation instances (the model has no
+    federation), so this part is a search for a failing input only."""
+    pairs = []
+    for _ in range(nworlds):
+        ds = c02_values(rng, gen.gen_dataset(rng, {"nbackends": [2, 2, 3], "service_auth": ["loose"], "group_auth": ["loose"]}))
+        wbs, mbs = [], []
+        for b in ds["backends"]:
+            flavour, flags = worldgen.pick_flavour(rng)
+            wb = worldgen.full_backend(schema, b, flavour, flags, rng)
+            wb["section"] = rng.choice(["", "", "europe/dc1"])
+            wbs.append(wb)
+            mbs.append(worldgen.model_backend(schema, wb, flags))
+        cfg = {"update_interval": 5, "stale_backend_timeout": 100000, "idle_timeout": 1000000, "max_parallel_peer_connections": 1}
+        impl_lines.append({"op": "clock", "id": n, "seconds": T0})
+        n += 1
+        impl_lines.append({"op": "world", "id": n, "world": {"config": cfg, "backends": wbs}})
+        for wb in wbs:
+            n += 1
+            impl_lines.append({"op": "init", "id": n, "peer": wb["id"]})
+        # some backends fail their next update: the inner daemon keeps their data and reports them in warning state
+        failing = [wb for wb in wbs if rng.random() < 0.5]
+        if not failing or len(failing) == len(wbs):
+            failing = [wbs[-1]]
+        n += 1
+        impl_lines.append({"op": "advance", "id": n, "seconds": 7})
+        for wb in failing:
+            n += 1
+            impl_lines.append({"op": "mode", "id": n, "backend": wb["id"], "mode": rng.choice(["refuse", "garbage"])})
+            n += 1
+            impl_lines.append({"op": "tick", "id": n, "peer": wb["id"]})
+        n += 1
+        impl_lines.append({"op": "export_import", "id": n, "federated": True})
+        exp_id = n
+        gds = {"backends": [{"id": mb["id"], "name": mb["name"], "flags": mb["flags"], "tables": mb["tables"]} for mb in mbs]}
+        texts = []
+        for _ in range(25):
+            opts = {"depth": [0, 1, 2], "sort": 0.4, "limit": 0.0, "offset": 0.0, "authuser": 0.2}
+            texts.append(gen.gen_stats_query(rng, schema, gds, opts) if rng.random() < 0.3 else gen.gen_data_query(rng, schema, gds, opts))
+        texts += ["GET hosts\nColumns: name state comments downtimes peer_key peer_name\nOutputFormat: wrapped_json\n\n",
+                  "GET services\nColumns: host_name description state peer_key\nOutputFormat: wrapped_json\n\n",
+                  "GET hosts\nStats: state >= 0\nColumns: peer_key\nOutputFormat: wrapped_json\n\n",
+                  "GET status\nColumns: peer_key peer_name program_start\nOutputFormat: wrapped_json\n\n",
+                  "GET sites\nColumns: peer_key peer_name status\nOutputFormat: wrapped_json\n\n",
+                  "GET contacts\nColumns: name peer_key\nOutputFormat: wrapped_json\n\n"]
+        ids = {}
+        for which in ("exporter", "importer"):
+            n += 1
+            impl_lines.append({"op": "use", "id": n, "which": which})
+            for k, text in enumerate(texts):
+                n += 1
+                impl_lines.append({"op": "query", "id": n, "text": text, "optimize": True})
+                ids[(which, k)] = n
+        for k, text in enumerate(texts):
+            pairs.append((exp_id, ids[("exporter", k)], ids[("importer", k)], text, [wb["id"] for wb in failing], wbs))
+        n += 1
+    return pairs, nworlds
+
+
+def _canon_answer(res):
+    """rows as a sorted multiset plus the names of the failed backends: what an answer says, whatever the order"""
+    try:
+        body = json.loads(res.get("body") or "null")
+    except ValueError:
+        return ("unparsable", res.get("body"))
+    if isinstance(body, dict):
+        rows = sorted(json.dumps(r, sort_keys=True) for r in body.get("data") or [])
+        return (res.get("code"), rows, sorted((body.get("failed") or {}).keys()), body.get("total_count"), body.get("columns"))
+    if isinstance(body, list):
+        return (res.get("code"), sorted(json.dumps(r, sort_keys=True) for r in body))
+    return (res.get("code"), body)
+
+
+def judge_federated(v, impl, pairs):
+    bad = set()
+    for exp_id, eid, iid, text, failing, wbs in pairs:
+        case = {"text": text, "optimize": True, "dataset": {"world": wbs}, "extra": {"federated_export": True, "backends_in_warning_state": failing}}
+        r = impl.get(exp_id) or {}
+        if r.get("error") or r.get("crash") or not r:
+            if exp_id not in bad:
+                bad.add(exp_id)
+                v.violations.append(("property", case, "federated export/import failed: %s" % str(r)[:400]))
+            continue
+        a, b = impl.get(eid) or {}, impl.get(iid) or {}
+        v.stats["evaluated"] += 1
+        ca, cb = _canon_answer(a), _canon_answer(b)
+        if ca != cb:
+            v.violations.append(("property", case, "the importing instance answers differently from the instance that wrote the snapshot (backends %s were in warning state at export time): exporting %s, importing %s"
+                                 % (failing, str(ca)[:300], str(cb)[:300])))
+        elif len(ca) > 1 and ca[1]:
+            v.stats["nontrivial"] += 1
 
 
 # ---------------------------------------------------------------------------------------------
@@ -372,6 +471,36 @@ def run_c13(ctx, spec, out):
                 v.violations.append(("property", case, "step %d (%s): the contact failed %ss after the last successful one (StaleBackendTimeout %s) but the backend is not down / keeps its data: status=%s has_data=%s"
                                      % (i, what, st.get("last_online_ago"), stale, st.get("status"), st.get("has_data"))))
                 break
+        # "a backend nobody queries is refreshed at the idle interval only": an update run of a backend that is idling
+        # afterwards comes at least IdleInterval after the run before it (the time of the last run is the implementation's
+        # own last_update; a query in between can only make the real gap smaller than the one computed here... and it
+        # ends the idling, so such a step is not judged)
+        idle_iv = None
+        for l in h.impl:
+            if l.get("op") == "world":
+                idle_iv = l["world"]["config"].get("idle_interval")
+        prev_ago, adv, queried = None, 0.0, False
+        checked = {cid for cid, _, _ in h.checks}
+        for l in h.impl:
+            if l.get("op") == "advance":
+                adv += l["seconds"]
+            elif l.get("op") == "query":
+                queried = True
+            if l.get("id") not in checked:
+                continue
+            a = impl.get(l["id"]) or {}
+            st = a.get("state") or {}
+            if not st:
+                prev_ago = None
+                continue
+            if l.get("op") == "tick" and a.get("ran") and st.get("idling") and prev_ago is not None and not queried and idle_iv:
+                gap = prev_ago + adv
+                if gap < idle_iv - 1:
+                    v.violations.append(("property", case, "step id %d (tick): the backend is idling (nobody queried it) and was refreshed %.1fs after its previous update run, IdleInterval is %ss"
+                                         % (l["id"], gap, idle_iv)))
+                    break
+                v.stats["idle_refreshes_judged"] = v.stats.get("idle_refreshes_judged", 0) + 1
+            prev_ago, adv, queried = float(st.get("last_update_ago", 0)), 0.0, False
         for i, (cid, kind, what) in enumerate(h.checks):
             if not ok:
                 break
